@@ -190,6 +190,8 @@ type Harness struct {
 	// OpHook, if set, is called inside every registered operator after the
 	// argument snapshot (scheduling point for the schedule explorer).
 	OpHook func(name string, live []eval.Value)
+	// OpHookCtx: the same, with the context the engine handed to the operator
+	OpHookCtx func(name string, ctx *eval.Ctx, live []eval.Value)
 	// CtxNil records whether a registered operator saw a nil *Ctx.
 	SawNilCtx map[string]int
 	// ScribbleArgs makes every registered operator overwrite its own
@@ -225,6 +227,9 @@ func (h *Harness) Register(name string, fn ref.CustomFn) {
 		}
 		if h.OpHook != nil {
 			h.OpHook(name, params)
+		}
+		if h.OpHookCtx != nil {
+			h.OpHookCtx(name, ctx, params)
 		}
 		res, err := fn(args)
 		h.Trace = append(h.Trace, ref.Ev{Name: name, Args: args, Res: res, Err: err})
